@@ -36,11 +36,15 @@ def ext_deepcopy(ip, x):
     raise Unsupported("copy.deepcopy of non-dict")
 
 
+ORIG = z3.Function("copy_origin", I, I)   # ghost: the object a shallow copy was made from (defined at allocation, once per address)
+
+
 def ext_copy(ip, x):
     """copy.copy(node): fresh object of the same class whose attributes are the same objects."""
     c = ip.c
     if isinstance(x, Sym) and x.ty == "Node":
         r = c.alloc(KIND_NODE)
+        c.assume(ORIG(r) == x.t)      # ghost definition at a fresh address
         for f in NODE_FIELDS:
             arr = c.heap.get("F:" + f)
             c.write_array("F:" + f, z3.Store(arr, r, arr[x.t]))
